@@ -60,6 +60,28 @@ def _shift_rv(rv, k):
     return rv
 
 
+def _subst_str(x, sub):
+    if not isinstance(x, str) or not sub:
+        return x
+    pat = re.compile(r"(?<![\w:])(%s)(?![\w])" % "|".join(re.escape(k) for k in sorted(sub, key=len, reverse=True)))
+    return pat.sub(lambda m: sub[m.group(1)], x)
+
+
+def _instantiate_callee(nb, sub):
+    """a call inside a spliced generic helper: write the callee with the helper's type parameters instantiated
+    (`<P as ToElements<B>>::to_elements` becomes `<<AIR as Air>::PublicInputs as ToElements<..>>::to_elements`)."""
+    t = nb["t"]
+    if t.get("k") not in ("call", "tailcall") or t["f"][0] != "k" or not t["f"][1].get("fn"):
+        return
+    fn = dict(t["f"][1]["fn"])
+    for key in ("full", "rfull"):
+        if fn.get(key):
+            fn[key] = _subst_str(fn[key], sub)
+    if fn.get("args"):
+        fn["args"] = [_subst_str(a, sub) for a in fn["args"]]
+    t["f"] = ["k", dict(t["f"][1], fn=fn)]
+
+
 def _shift_block(b, k, boff):
     nb = {"s": [], "t": None}
     if b.get("cleanup"):
@@ -142,10 +164,15 @@ def inline_helpers(prog, f, depth=2):
         for hb in h2.blocks:
             nb = _shift_block(hb, k, boff)
             nb["origin"] = hb.get("origin") or h.key
+            names = h.raw.get("generics") or []
+            cargs = (callee_of(call) or {}).get("args") or []
+            outer = dict(zip(names, cargs)) if len(names) == len(cargs) else {}
             if "subst" not in nb:
-                names = h.raw.get("generics") or []
-                cargs = (callee_of(call) or {}).get("args") or []
-                nb["subst"] = dict(zip(names, cargs)) if len(names) == len(cargs) else {}
+                nb["subst"] = outer
+            elif outer:
+                nb["subst"] = {k_: _subst_str(v_, outer) for k_, v_ in nb["subst"].items()}
+            if outer:
+                _instantiate_callee(nb, outer)
             if nb["t"]["k"] == "return":
                 nb["s"].append({"k": "assign", "p": dest, "rv": ["use", ["mv", [k]]], "sp": nb["t"]["sp"]})
                 nb["t"] = {"k": "goto", "t": cont, "sp": nb["t"]["sp"]}
